@@ -44,7 +44,16 @@ for l in open(f"{root}/known_findings.txt"):
     if m: known.setdefault(m.group(1), []).append(m.group(2))
 ft = ["| property | commit | what failed |", "|---|---|---|"] + [f"| {a} | {b} | {c[:230].replace('|','/')} |" for a, b, c in sorted(fixed)]
 kt = ["| property | known cells |", "|---|---|"] + [f"| {k} | {len(v)} |" for k, v in sorted(known.items())]
-for tag, tbl in (("FIXED-TABLE", ft), ("KNOWN-TABLE", kt)):
+st = ["| property | engine | level | quick tier, last run: evaluations / distinct (states, transitions) | exhaustive | wall s | known cells seen |", "|---|---|---|---|---|---|---|"]
+for f in sorted(glob.glob(f"{root}/checks/C*.json")):
+    pid = os.path.basename(f)[:-5]
+    c = json.load(open(f)).get("claim", {})
+    try: ev = json.load(open(f"{root}/evidence/{pid}.json"))
+    except Exception: ev = {}
+    cov = ev.get("coverage", {})
+    extra = f" ({cov['states']} states, {cov['transitions']} transitions)" if "states" in cov and "transitions" in cov else ""
+    st.append(f"| {pid} | {c.get('engine','')} | {c.get('level','')} | {cov.get('evaluations','?')} / {cov.get('distinct_nontrivial','?')}{extra} [{ev.get('tier','?')}] | {cov.get('exhaustive','?')} | {round(ev.get('wall_s',0))} | {len(cov.get('known_cells',[]))} |")
+for tag, tbl in (("FIXED-TABLE", ft), ("KNOWN-TABLE", kt), ("STATUS-TABLE", st)):
     b, e = f"<!-- {tag}-BEGIN -->", f"<!-- {tag}-END -->"
     if b in s: s = s[:s.index(b)] + b + "\n" + "\n".join(tbl) + "\n" + e + s[s.index(e)+len(e):]
 open(f"{root}/DESIGN.md", "w").write(s)
